@@ -15,9 +15,18 @@ PARTIAL = [
     "by t <= r removals (span k+r and multiplicity s+r, which are what the library's searches return) give exactly the "
     "control points of r-t insertions (t = r: the original ones) for curves, both directions of surfaces and all three "
     "directions of volumes; sizes and knot vectors drop by the count; evaluated points are unchanged; object-level "
-    "insert_knot / remove_knot round trip for curves, surfaces and volumes (one direction per call). NOT proved: knots produced by refinement, or inserted knots after "
-    "which OTHER knots were inserted, i.e. 'whenever removable at all' (needs uniqueness of B-spline coefficients / "
-    "linear independence); these are checked by the exact oracle and the correspondence only",
+    "insert_knot / remove_knot round trip for curves, surfaces and volumes (one direction per call). ALSO PROVED (section (U), curves): 'whenever removable at all' - "
+    "B-spline control points over a knot vector in which no basis function vanishes on the whole domain are unique (control_points_unique; local "
+    "linear independence: C03 basisFuns_linearly_independent, C02 span_polynomial_determines_control_points), hence if SOME well-formed curve Q over "
+    "the knot vector with r copies of the knot taken out has the same points (RemovableKnot: nothing assumed about how the curve was produced - "
+    "refinement, insertions in any order), the curve at hand is the r-fold insertion into Q (removable_knot_is_inserted) and A5.8 as coded returns "
+    "exactly Q, or the net of r-t insertions for t <= r removals (remove_removable_knot, remove_removable_knot_t), the evaluated points are unchanged "
+    "(remove_removable_knot_preserves_points) and operations.remove_knot on the curve object does the same with the library's own searches "
+    "(curve_remove_removable_knot); surfaces per direction: when every iso-curve of the direction is removable the gather / A5.8 / scatter returns "
+    "exactly the witness net and the reduced size (surface_v/u_remove_removable_knot); instantiated on a knot produced by refinement and followed by "
+    "other insertions. NOT proved: 'removable at all' for volumes (mapVol lift; per iso-curve it is the curve theorem) and at object level for "
+    "surfaces / volumes (removeKnot on a Shape with the library's searches), partial removal t < r for surfaces, and removable knots in a curve some of whose basis functions vanish on the whole domain (a knot of multiplicity > p+1: "
+    "there the control points are NOT unique); these are checked by the exact oracle and the correspondence only",
     "object-level (Shape) round trip removeKnot (insertKnot S ...).1 ... = (S, true), the partial version (r in, t <= r out = r - t in) and the evaluated-point corollary are proved for curves, for either direction of a surface and for any direction of a volume (surface_insert_then_remove, volume_insert_then_remove, *_insert_r_remove_t_object, *_remove_after_insert_preserves_points) when the call requests ONE direction (OnlyDir); insert in several directions followed by removal in several directions is not proved (the removal of the first direction then runs on a net refined in the others: needs the commutation of insertion in one direction with removal in another)",
     "volumes, list-of-rows branch of helpers.knot_removal: MODELLED as coded (knotRemovalRows: sweep over whole rows, ONE removability flag per step from the FIRST point of the rows, and the object sharing between temp and ctrlpts_new - temp[last-first+2] = ctrlpts_new[last+1] stores the list itself, which the sweep of the next step writes into; streams rem-rows (inserted / random / only-first-removable / first-not-removable rows, 1..s copies, and the three Lean witnesses) and rem-vol-rows against the real helper called with rows and against operations.remove_knot on volumes, removable or not). PROVED: if every iso-curve passes the removability test at every step (Rows.AllRemovable, decidable; true after insertion: inserted_knots_all_removable) the rows branch returns exactly the per-iso-curve results (knotRemovalRows_isocurve_of_all_removable, knotRemovalRows_is_transposed_knotRemoval, mapVolRows_remove_eq_mapVol, removeKnotVolRows_is_removeKnotDir, volume_u/v/w_rows_insert_r_remove_t); for ONE removal it does so on every iso-curve whose flag equals the first iso-curve's flag (knotRemovalRows_one_removal_isocurve_of_equal_flags); rows stay rectangular for any input. REFUTED on concrete witnesses (kernel-decided, replayed on the implementation): the two flag mismatches (knotRemovalRows_refutes_isocurve_when_only_first_removable / _when_first_not_removable) and, for 2+ removals of a knot that is NOT removable, the write through the shared row, which changes a control point even with a single iso-curve (knotRemovalRows_refutes_point_branch_on_shared_row: rows branch 8, point branch 1). NOT proved: agreement for 2+ removals when some step finds the knot not removable (there the two branches of the CODE genuinely differ); the object-level model removeKnotDir / removeKnot keeps deciding per iso-curve, so the operation-level streams ins-rem* still generate only removable knots for volumes - the rows model (rowsvol) is the one compared on unremovable volume knots",
 ]
